@@ -43,12 +43,20 @@ def run(ctx):
                        'that failed, or whose result was not examined, leaves the count at its entry value 0, so that the next '
                        'registration triggers it again; unregistration takes the count down by at most one and tears the transport '
                        'down only where the count has reached 0', floor=4)
+    ctx.rule('R-C08f', 'WAKE-OUTLIVES-PENDING: the wake-up that is outstanding for a non-empty pending list goes away only together with '
+                       'the list\'s content: an entry point that is entered because the wake-up fired (handler of the state\'s local task / '
+                       'kick raw event, the wrapper) finds the pending list empty or detaches it whole, under the owner\'s mutex, on every '
+                       'path to its return; the owner-local wake-up task of a state is cancelled (iv_task_unregister) only where that '
+                       'state\'s pending list was found empty under its mutex and nothing was queued or called back since -- in particular '
+                       'an entry point that takes a single event off its list (unregistration) leaves the wake-up of the others alone',
+             floor=2)
     ctx.rule('R-C08g', 'NULL-CONTRADICTION in iv_event.c', floor=0)
     derive_keys(ctx.prog)
     ctx.section(post)
     ctx.section(runner)
     ctx.section(who_runs)
     ctx.section(transport_follows_count)
+    ctx.section(wake_outlives_pending)
 
 
 def pt(e):
@@ -241,6 +249,10 @@ def post(ctx):
         before = sum(len(b.succ) for b in gf.blocks.values())
         gf = force_edges(gf, keep)
         prune_infeasible(gf)
+        # "the chain being exhaustive" is judged over the values the transport selector can hold (a file-scope
+        # scalar nobody's address is taken of, only ever assigned constants), not over the shape of the chain: a
+        # `switch` with a case for each of them has no fall-off path
+        h08.prune_by_selector_range(prog, gf)
         if sum(len(b.succ) for b in gf.blocks.values()) == before:
             break
     task_registered = result_of(gf, 'iv_task_registered', K.LOCAL)
@@ -673,6 +685,196 @@ def _unlinked_before(g, cs, ls):
     ids = _ident(objx)
     hit = [w for w in st if w in ids or (ids & st[w][1])]
     return bool(hit) and all(st[w][0] == 'U' for w in hit), obj
+
+
+# --------------------------------------------------------------------------
+# R-C08f: the wake-up of a non-empty pending list is not taken away
+# --------------------------------------------------------------------------
+
+TASK_API = ('iv_task_register', 'iv_task_unregister', 'iv_task_registered')
+RAW_API = ('iv_event_raw_register', 'iv_event_raw_unregister', 'iv_event_raw_post')
+
+
+def _mentions_var(text, v):
+    return re.search(r'(?<![\w$@~.>])' + re.escape(v) + r'(?![\w$@~])', text) is not None
+
+
+def _pending_known_empty(g, ls):
+    """Forward must-analysis.  State (KNOWN, DRAINED): KNOWN = the spellings of the states whose pending list is known
+    to be empty as far as this thread is concerned -- it was found empty (iv_list_empty, directly in the branch or
+    through a local that holds the result of the test) or detached whole, with the owner's list mutex held, and since
+    then this thread queued nothing and called nothing back (a poster in another thread that queues afterwards finds
+    the list empty and sends its own cross-thread kick); DRAINED = such a point was passed at all."""
+    def sampled(x):
+        """for an emptiness test of a pending list: the pointer to the state it belongs to"""
+        c = strip(x)
+        if isinstance(c, dict) and c.get('k') == 'call' and c.get('callee') == 'iv_list_empty' and c.get('args'):
+            return h08.container_ptr(c['args'][0], K.PENDING)
+        return None
+
+    def direct(x):
+        return sampled(x) is not None
+    flags = h08.value_sets(g, lambda x, S: h08.in_class(x, S, direct))
+    # what a local that holds the result of the test speaks about: the state sampled, and whether under the mutex
+    fdefs = {}
+    for e in g.events():
+        if e['ev'] == 'store' and h08.var_name(e['lhs']) is not None and e.get('op') == '=' and 'rhs' in e and direct(e['rhs']):
+            fdefs.setdefault(h08.var_name(e['lhs']), []).append(
+                (frozenset(h08.spellings(sampled(e['rhs']))), K.EVL in held(ls.get(pt(e)))))
+
+    def forget(known, v):
+        return frozenset(t for t in known if t != v and not _mentions_var(t, v))
+
+    def tr(e, st):
+        known, drained = st
+        ev = e['ev']
+        if ev == 'store':
+            v = h08.var_name(e['lhs'])
+            if v is not None:
+                return (forget(known, v), drained)
+            if K.OWNER in lvalue_steps(e['lhs']):
+                return (frozenset(), drained)
+            return st
+        if ev == 'decl':
+            return (forget(known, e['name']), drained)
+        if ev == 'call':
+            if e.get('callee') in h08.DETACH and len(e.get('args', [])) == 2 and h08.list_class(e['args'][0], ()) == 'pending':
+                if K.EVL in held(ls.get(pt(e))):
+                    X = h08.container_ptr(e['args'][0], K.PENDING)
+                    return (known | frozenset(h08.spellings(X)), True)
+                return st
+            if e.get('callee') in h08.LIST_WRITERS and e['callee'] != 'INIT_IV_LIST_HEAD' and e['callee'] not in UNLINK \
+                    and any(h08.list_class(a, ()) in ('pending', 'link') for a in e.get('args', [])):
+                return (frozenset(), drained)          # something is queued
+            if 'fnexpr' in e and (callback_kind(e) or ('', ''))[0] != 'method':
+                return (frozenset(), drained)          # user code: may post
+            for a in e.get('args', []):
+                a = strip(a)
+                if isinstance(a, dict) and a.get('k') == 'addr' and h08.var_name(a['e']) is not None:
+                    known = forget(known, h08.var_name(a['e']))
+            return (known, drained)
+        return st
+
+    def edge(blk, si, st):
+        known, drained = st
+        t = blk.term
+        if t and t.get('cond') is not None and len(blk.succ) == 2 and t.get('cls') not in ('SwitchStmt', 'MethodDispatch'):
+            at_end = (blk.id, len(blk.events))
+            for (op, lc, rc, l, r) in norm_cond(t['cond'], si == 0):
+                if op != '!=' or rc != '0' or not isinstance(l, dict):
+                    continue
+                X = sampled(l)
+                if X is not None:
+                    # the call event of the test evaluated in this block tells what was held
+                    cl = canon(strip(l))
+                    evs = [e for e in blk.events if e['ev'] == 'call' and is_call(e, 'iv_list_empty') and e.get('args')
+                           and canon({'k': 'call', 'callee': 'iv_list_empty', 'args': e['args']}) == cl]
+                    locked = bool(evs) and K.EVL in held(ls.get(pt(evs[-1])))
+                    if not evs:
+                        locked = K.EVL in held(ls.get(at_end))
+                    if locked:
+                        known, drained = known | frozenset(h08.spellings(X)), True
+                    continue
+                v = h08.var_name(l)
+                if v is None:
+                    y = strip(l)
+                    v = y.get('_was') if isinstance(y, dict) else None
+                if v is not None and v in flags.get(at_end, frozenset()) and fdefs.get(v) and all(lk for (_, lk) in fdefs[v]):
+                    common = frozenset.intersection(*[sp for (sp, _) in fdefs[v]])
+                    if common:
+                        known, drained = known | common, True
+        return (known, drained)
+
+    def join(a, b):
+        return (a[0] & b[0], a[1] and b[1])
+    _, ev_in = forward(g, (frozenset(), False), tr, join, edge=edge)
+    return ev_in
+
+
+def _cancels_local_wake(e):
+    return e['ev'] == 'call' and is_call(e, 'iv_task_unregister') and e.get('args') \
+        and last_member(h08.member_of(e['args'][0])) == K.LOCAL
+
+
+def wake_outlives_pending(ctx):
+    prog = ctx.prog
+    acc = Acc()
+
+    # (i) consumption: the entry points entered when the wake-up fired.  (A poll slot consumes the kick token and calls
+    # the wrapper; only its paths behind the token reach the runner, R-C08d.)
+    ctxs, _ = h08.root_contexts(prog, h08.is_event_site, 'runner', anchor=h08.touches_event_handler)
+    polls = {f.q for f in prog.slot_targets('poll')}
+    taken = roles.address_taken(prog)
+    consumers = [(root, g) for (root, g, sites) in ctxs
+                 if root.q not in polls and (root.q in taken or (not root.static and root.name == WRAPPER))]
+    if not consumers:
+        raise AnalysisBroken('no entry point other than a poll slot runs the pending events (handler of the wake-up task / kick raw event)')
+    for root, g in consumers:
+        ls = locksets(g)
+        facts = _pending_known_empty(g, ls)
+        pts = [((pb, pi), e['loc']) for (pb, pi, e) in exits_of(g)]
+        if (g.exit, 0) in facts:
+            pts.append(((g.exit, 0), root.loc))
+        pts = [(p, loc) for (p, loc) in pts if p in facts]
+        if not pts:
+            raise AnalysisBroken('%s: no return reachable' % root.name)
+        ok = all(facts[p][1] for (p, _) in pts)
+        badp = [p for (p, _) in pts if not facts[p][1]]
+        path = None
+        if badp:
+            tgt = [e for (pb, pi, e) in exits_of(g) if (pb, pi) in badp]
+            path = path_to(g, tgt[0]) if tgt else None
+        acc.add('R-C08f', '%s:consumed-wake-empties-pending' % root.name, root.loc, ok,
+                'entered because the owner\'s wake-up fired (which is thereby used up), every path to the return finds the pending '
+                'list empty or detaches it whole with the owner\'s mutex held: no queued event is left behind without a wake-up',
+                root.q, path)
+
+    # (ii) cancellation of the owner-local wake-up task, in the entry points that deal with an event's link or with the task
+    def role_anchor(e):
+        if e['ev'] not in ('call', 'store', 'load'):
+            return False
+        return any(x.get('k') == 'member' and (x.get('record'), x.get('field')) in (K.LINK, K.LOCAL) for x in walk(e))
+    owners = roles.functions_with(prog, role_anchor)
+    if not owners:
+        raise AnalysisBroken('no function touches %s.%s / %s.%s' % (K.LINK + K.LOCAL))
+    runner_roots = {root.q for (root, g, sites) in ctxs}
+    unlinkers = 0
+    for q, r in sorted(h08.nearest_roots(prog, owners).items()):
+        g = h08.inline(prog, r, stop=lambda t: t.name in TASK_API + RAW_API)
+        cancels = [e for e in g.events() if _cancels_local_wake(e)]
+        unlinks = [e for e in g.events() if e['ev'] == 'call' and is_call(e, UNLINK) and e.get('args')
+                   and h08.list_class(e['args'][0], ()) == 'link']
+        is_runner = q in runner_roots or any(h08.is_event_site(e) for e in g.events())
+        # the unlink of unregistration: of the event the entry point was handed (its own, never reassigned parameter),
+        # as opposed to the runner's unlink of an element it took from the batch (R-C08c)
+        given = {p['name'] for p in r.params} - h08.written_vars(g)
+        handed = [u for u in unlinks if given & set(h08.spellings(h08.container_ptr(u['args'][0], K.LINK) or {}))]
+        unlinks = handed or ([] if is_runner else unlinks)
+        if not cancels and not unlinks:
+            continue
+        ls = locksets(g)
+        facts = _pending_known_empty(g, ls)
+        all_ok = True
+        for c in cancels:
+            S = h08.container_ptr(c['args'][0], K.LOCAL)
+            st = facts.get(pt(c))
+            ok = st is None or bool(frozenset(h08.spellings(S)) & st[0])        # (None: dead code in this context)
+            all_ok = all_ok and ok
+            acc.add('R-C08f', '%s:cancel-only-when-pending-empty' % r.name, c['loc'], ok,
+                    '%s takes away the wake-up outstanding for the pending list of %s: on every path to it that list was found empty '
+                    '(or detached whole) with the owner\'s mutex held, and nothing was queued or called back since; otherwise the events '
+                    'still queued -- and every later post, which finds the list non-empty and sends nothing -- are never delivered'
+                    % (describe(c), canon(S) if S is not None else '?'), r.q, None if ok else path_to(g, c))
+        if unlinks:
+            for u in unlinks:
+                unlinkers += 1
+                acc.add('R-C08f', '%s:unlink-leaves-wake-up' % r.name, u['loc'], all_ok,
+                        'taking one event off its list (%s) does not take the wake-up of the other queued events away: the entry point '
+                        'cancels the owner-local task nowhere (%d cancellation(s)), or only where the pending list is known empty'
+                        % (describe(u), len(cancels)), r.q)
+    if not unlinkers:
+        raise AnalysisBroken('no entry point outside the runner unlinks an event (%s.%s) from its list: unregistration not found' % K.LINK)
+    acc.emit(ctx)
 
 
 # --------------------------------------------------------------------------
